@@ -60,6 +60,8 @@ enum Op {
     ReadS(Ty, u32),
     Skip(u32),
     ReadU8,
+    /// unrestricted-vector code (Table D.3); only the consumption rules are judged, not the value
+    ReadUmv,
     Vlc(usize),
     StartCode(bool),
     Commit,
@@ -77,6 +79,7 @@ fn op_kind(op: &Op) -> &'static str {
         Op::ReadS(..) => "read_signed",
         Op::Skip(_) => "skip",
         Op::ReadU8 => "read_u8",
+        Op::ReadUmv => "read_umv",
         Op::Vlc(_) => "read_vlc",
         Op::StartCode(false) => "start_code",
         Op::StartCode(true) => "start_code_in_error",
@@ -305,6 +308,30 @@ impl Lock {
                 let got = rd.read_u8().map(|v| Val::U(v as u64));
                 self.judge(op, exp, got, 8)
             }
+            Op::ReadUmv => {
+                // a failed read consumes nothing; a successful one consumes at least one bit, all inside the data
+                let got = rd.read_umv();
+                let (bits_read, buffered) = rd.verif_position();
+                let abs = (*self.delivered.borrow() - buffered) * 8 + bits_read;
+                match got {
+                    Err(e) => {
+                        // like read_vlc, this composite read is not atomic by itself: it is only issued inside a
+                        // transaction or look-ahead, whose rollback is what the model checks
+                        self.counts.push(("read_umv", "err"));
+                        Err(e)
+                    }
+                    Ok(_) => {
+                        let end = self.data.borrow().len() * 8;
+                        if abs <= self.p || abs > end {
+                            self.fail("position/read_umv", format!("read_umv succeeded at bit {} and left the reader at bit {} (data ends at {})", self.p, abs, end));
+                        }
+                        self.p = abs;
+                        self.consumed_ok = true;
+                        self.counts.push(("read_umv", "ok"));
+                        Ok(())
+                    }
+                }
+            }
             Op::Skip(n) => {
                 let avail = self.data.borrow().len() * 8 - self.p;
                 let exp = if *n as usize <= avail { MRes::Ok(Val::Unit) } else { MRes::Eof };
@@ -449,7 +476,7 @@ impl Lock {
                 };
             }
         };
-        if self.mismatch.is_none() && !matches!(op, Op::Vlc(_) if r.is_err()) {
+        if self.mismatch.is_none() && !matches!(op, Op::Vlc(_) | Op::ReadUmv if r.is_err()) {
             self.check_pos(rd, &format!("{:?}", op));
         }
         r
@@ -539,6 +566,9 @@ fn alphabet(tabs: &[VTable]) -> Vec<Op> {
         Op::Skip(7),
         Op::Skip(8),
         Op::Skip(17),
+        Op::Tx(vec![Op::ReadUmv], End::Ok),
+        Op::Skip(u32::MAX),
+        Op::Skip(u32::MAX - 7),
         Op::ReadU8,
         Op::StartCode(false),
         Op::StartCode(true),
@@ -619,9 +649,25 @@ fn random_op(rng: &mut Rng, depth: usize, ntab: usize, top: bool) -> Op {
         8 => match rng.below(12) {
             0 => Op::Skip(*rng.pick(&[4088u32 * 8, 4096 * 8, 4096 * 8 + 1, 8192 * 8 - 3, 32767, 32768, 65535, 65536]) + rng.below(9) as u32),
             1 => Op::Skip(rng.below(600_000) as u32),
+            // counts at the very top of the 32-bit range (never available: end of data, nothing consumed)
+            2 => Op::Skip(u32::MAX - rng.below(20) as u32),
             _ => Op::Skip(rng.below(40) as u32),
         },
-        9 => Op::ReadU8,
+        9 => {
+            if rng.chance(1, 3) {
+                if depth == 0 {
+                    if rng.chance(1, 2) {
+                        Op::Tx(vec![Op::ReadUmv], End::Ok)
+                    } else {
+                        Op::Look(vec![Op::ReadUmv], End::Ok)
+                    }
+                } else {
+                    Op::ReadUmv
+                }
+            } else {
+                Op::ReadU8
+            }
+        }
         10 => Op::StartCode(false),
         11 => Op::StartCode(rng.chance(1, 3)),
         12 => {
@@ -735,7 +781,7 @@ pub fn run(ctx: &Ctx) -> (Report, String) {
     if ctx.is_main() {
         let m = ctx.scale_pct;
         rep.require("operations_compared", if thorough { 300_000_000 } else { 15_000_000 } * m / 100);
-        for k in ["op:read:ok", "op:read:eof", "op:read:width-error", "op:read_signed:ok", "op:peek:ok", "op:skip:eof", "op:read_vlc:ok", "op:read_vlc:eof", "op:transaction:err", "op:transaction_union:none", "op:lookahead:ok", "op:commit:ok", "op:grow:ok", "op:start_code:found", "op:start_code:none", "op:start_code:eof", "op:start_code_in_error:found", "reads_straddling_end", "histories_over_an_interrupting_source", "long_histories", "phase0", "phase1", "phase2", "phase3", "phase4", "phase5", "phase6", "phase7"] {
+        for k in ["op:read:ok", "op:read:eof", "op:read:width-error", "op:read_signed:ok", "op:peek:ok", "op:skip:eof", "op:read_umv:ok", "op:read_umv:err", "op:read_vlc:ok", "op:read_vlc:eof", "op:transaction:err", "op:transaction_union:none", "op:lookahead:ok", "op:commit:ok", "op:grow:ok", "op:start_code:found", "op:start_code:none", "op:start_code:eof", "op:start_code_in_error:found", "reads_straddling_end", "histories_over_an_interrupting_source", "long_histories", "phase0", "phase1", "phase2", "phase3", "phase4", "phase5", "phase6", "phase7"] {
             rep.require(k, 100);
         }
     }
